@@ -168,7 +168,13 @@ def replDescriptors (T : Tables) : Nat → Nat → Option Nat → List Node → 
     let tooLong := match s4 with
       | some maxLen =>
         if count > 0 then
-          let len := minSeqLength (replicaOf T extra body 0)
+          -- the first occurrence is measured with its Table D sequences and fixed replications
+          -- expanded (a copy, no section 4 guard); unexpanded when that expansion fails
+          let one := replicaOf T extra body 0
+          let fl1 := if hasFlag flags OP_ZDRC_IGNORE then flags - OP_ZDRC_IGNORE else flags
+          let len := match expandList T f fl1 none one with
+            | .ok (xl, _) => minSeqLength xl
+            | .error _ => minSeqLength one
           decide (len * count / 8 > maxLen * 3)
         else false
       | none => false
